@@ -31,7 +31,24 @@ MoreLibs ==
   \cup { Lib(<< Cell("steps", o, 1, <<>>, <<>>, <<>>) >>) : o \in { Outl(<<4, 2, 1>>, <<1, 3, 3>>), Outl(<<5, 5, 2>>, <<1, 2, 4>>), Outl(<<7, 7, 7>>, <<2, 2, 2>>),
                                                               Outl(<<0>>, <<0>>), Outl(<<9, 0>>, <<0, 9>>) } }
   \cup { Lib(<< Cell("far", Outl(<<9>>, <<9>>), 4, <<>>, << A("n", 1, 7, 3, 8), A("n", 0, 0, 0, 0), A("m", 3, 2, 0, 5) >>, << X(4, 9, 1, 2), X(2, 2, 2, 3) >>) >>) }
-Init == c \in Libs \cup MoreLibs
+\* Random libraries (NRand; TLC's RandomElement, reproducible under -seed): five cells in a random listing order, random
+\* instance lists over the cells below, random outlines, assignments and cuts; some leaves carry an abstract view only
+CONSTANT NRand
+OutlPool == { Outl(<<10>>, <<10>>), Outl(<<12, 8, 3>>, <<2, 5, 9>>), Outl(<<4, 4>>, <<1, 3>>), Outl(<<4, 2, 1>>, <<1, 3, 3>>), Outl(<<9, 0>>, <<0, 9>>), Outl(<<1>>, <<1>>) }
+Perms5 == { p \in [1..5 -> 1..5] : \A i, j \in 1..5 : p[i] = p[j] => i = j }
+RandInstsT(below) == [k \in 1..RandomElement(0..3) |->
+                        I("i" \o ToString(k), below[RandomElement(1..Len(below))], <<RandomElement(-5..12), RandomElement(-5..12)>>, RandomElement(BOOLEAN), RandomElement(BOOLEAN))]
+RandCross(z) == [k \in 1..RandomElement(0..3) |-> A(RandomElement({"a", "vdd", "x"}), RandomElement(0..3), RandomElement(0..9), RandomElement(0..3), RandomElement(0..9))]
+RandCuts(z) == [k \in 1..RandomElement(0..3) |-> X(RandomElement(0..3), RandomElement(0..9), RandomElement(0..3), RandomElement(0..9))]
+RandCellT(n, below) ==
+  IF below = <<>> /\ RandomElement(BOOLEAN)
+  THEN [WithView(Cell(n, RandomElement(OutlPool), RandomElement(0..4), <<>>, <<>>, <<>>)) EXCEPT !.view = "abs"]
+  ELSE WithView(Cell(n, RandomElement(OutlPool), RandomElement(0..4), IF below = <<>> THEN <<>> ELSE RandInstsT(below), RandCross(n), RandCuts(n)))
+RandLibT(i) == LET cs == << RandCellT("t_top", <<"t_a", "t_b", "t_c", "t_leaf">>), RandCellT("t_a", <<"t_b", "t_c", "t_leaf">>), RandCellT("t_b", <<"t_c", "t_leaf">>),
+                           RandCellT("t_c", <<"t_leaf">>), RandCellT("t_leaf", <<>>) >>
+                   pm == RandomElement(Perms5)
+               IN Lib([k \in 1..5 |-> cs[pm[k]]])
+Init == c \in Libs \cup MoreLibs \cup { RandLibT(i) : i \in 1..NRand }
 Next == UNCHANGED c
 Spec == Init /\ [][Next]_c
 OrderIsValid == ExportOrderOK(c.cells, ExportOrder(c.cells))
